@@ -38,6 +38,7 @@ def run(ctx):
                   ("renamescript", ("old", v))]
     calls += [("listscripts", ()), ("capability", ()), ("logout", ())]
     viol, lines, expect = [], [], []
+    all_written, spec_diffs = [], []
     evals = nontriv = 0
     for op, args in calls:
         reply = b'"x"\r\nOK\r\n' if op in ("listscripts", "capability") else (b"{1}\r\nx\r\nOK\r\n" if op == "getscript" else b"OK\r\n")
@@ -53,6 +54,7 @@ def run(ctx):
         if any(any(p in a for p in PIECES[:9]) for a in args if isinstance(a, str)):
             nontriv += 1
         written = b"".join(b for t, b in s.wire.writes[nw:])
+        all_written.append(written)
         res = outs[-1].split(" ")[0]
         if res == "res=error":
             if written:
@@ -65,8 +67,28 @@ def run(ctx):
             continue
         if got != expected(op, args):
             viol.append({"op": op, "args": repr(args), "written_hex": written.hex(), "what": "wire carries %r, caller asked for %r" % (got, expected(op, args))})
+    # the Lean strict decoder (the one the theorem is about) and the Python strict decoder (the oracle) must agree
+    dec_inputs = list(all_written)
+    for _ in range(300):
+        b = r.choice(all_written) if all_written else b"X\r\n"
+        k = r.randrange(len(b) + 1)
+        dec_inputs.append(b[:k] + r.choice([b'"', b"\\", b" ", b"{3+}\r\nabc", b"\r\n", b"7", b"x", b"\0"]) + b[k:])
+    dec_model = run_driver(["dec " + hx(b) for b in dec_inputs], live_table=False)
+    for b, m in zip(dec_inputs, dec_model):
+        try:
+            cmds = refserver.decode_commands(b)
+            want = "ok %s %s" % (cmds[0][0].encode().hex(), ",".join(("s:" + (v.hex() or "e")) if t == "str" else "n:%d" % v for t, v in cmds[0][1])) if len(cmds) == 1 else "trailing"
+        except refserver.ProtocolViolation:
+            want = "bad"
+        def canon(x):
+            if not x.startswith("ok"):
+                return "not-exactly-one-command"
+            parts = x.split(" ")
+            return "ok %s %s" % (bytes.fromhex(parts[1]).upper().hex(), parts[2] if len(parts) > 2 else "")
+        if canon(m) != canon(want):
+            spec_diffs.append({"suite": "decoder-spec", "input_hex": b.hex(), "lean": m[:200], "python": want[:200]})
     model = run_driver(lines, live_table=False)
-    diffs = [{"suite": "wire", "request": l[:300], "impl": e[:400], "model": m[:400]} for l, e, m in zip(lines, expect, model) if e != m]
+    diffs = [{"suite": "wire", "request": l[:300], "impl": e[:400], "model": m[:400]} for l, e, m in zip(lines, expect, model) if e != m] + spec_diffs
     fresh, known = split_known("C08", viol, lambda f, v: False)
     return {"evaluations": evals, "distinct_nontrivial": nontriv, "rule": RULE, "samples": [{"op": c[0], "args": repr(c[1])[:120]} for c in calls[:3]],
             "suites": {"wire": {"calls": len(calls)}}, "diffs": diffs, "violations": fresh, "known": known}
